@@ -1,36 +1,168 @@
 package trzsz
 
-func verifNondetByte() byte
-func verifNondetBool() bool
-func verifNondetRange(lo, hi int) int
-func verifAssume(bool)
-func verifAssert(bool, string)
-func verifReach(string)
-func verifFSAddDir(path string)
-func verifFSSymbolicExists()
-func verifFSEvents() int
-func verifFSEventPath(i int) string
-func verifFSEventPre(i int) bool
+// C07 — without -y nothing that already exists at the destination is touched.
+// Names are plain here (hostile names are C09's subject). The pre-existing state is either declared explicitly
+// (name.N series with gaps, files where directories are needed) or left to the solver (verifFSSymbolicExists).
 
-type zzNop7 struct{}
+import "fmt"
 
-func (zzNop7) Write(p []byte) (int, error) { return len(p), nil }
+type zzSink7 struct{ data []byte }
 
-// non-directory mode, no -y: whatever already exists in /d, the file opened is a fresh name
-func zzH_C07_create() {
-	verifFSAddDir("/d")
-	verifFSSymbolicExists()
-	t := newTransfer(zzNop7{}, nil, false, nil)
-	t.transferConfig.Overwrite = false
-	f, local, err := t.createFile("/d", "f", true, nil)
+func (s *zzSink7) Write(p []byte) (int, error) {
+	s.data = append(s.data, p...)
+	return len(p), nil
+}
+
+// zzSuccName decodes the "#SUCC:<encoded>\n" reply the receiver wrote.
+func zzSuccName(data []byte) (string, bool) {
+	if len(data) < 8 || string(data[:6]) != "#SUCC:" || data[len(data)-1] != '\n' {
+		return "", false
+	}
+	b, err := decodeString(string(data[6 : len(data)-1]))
 	if err != nil {
-		verifAssert(verifFSEvents() == 0, "something was opened although the call failed")
+		return "", false
+	}
+	return string(b), true
+}
+
+// the fresh-name search over a declared series name, name.0, ... name.(K-1) with arbitrary gaps and kinds
+func zzH_C07_newName() {
+	root := verifFSRoot()
+	k := verifBound("K")
+	names := []string{"f"}
+	for i := 0; i < k; i++ {
+		names = append(names, fmt.Sprintf("f.%d", i))
+	}
+	firstFree := -1
+	for i, n := range names {
+		kind := verifNondetRange(0, 2)
+		if kind == 1 {
+			verifFSAddFile(root+"/"+n, []byte{'o'})
+		} else if kind == 2 {
+			verifFSAddDir(root + "/" + n)
+		} else if firstFree < 0 {
+			firstFree = i
+		}
+	}
+	verifAssume(firstFree >= 0)
+	verifFSBegin()
+	got, err := getNewName(root, "f")
+	verifAssert(err == nil, "error although a fresh name exists")
+	verifAssert(got == names[firstFree], "not the first free name of the series")
+	verifAssert(verifFSMutations() == 0, "the search modified the destination")
+	verifReach("fresh")
+}
+
+// all 1001 candidate names taken: the transfer fails, nothing is opened or reused
+func zzH_C07_allTaken() {
+	root := verifFSRoot()
+	verifFSTakeAllNames(root, "f")
+	verifFSBegin()
+	sink := &zzSink7{}
+	t := newTransfer(sink, nil, false, nil)
+	t.transferConfig.Timeout = 0
+	t.buffer.addBuffer([]byte("#NAME:" + encodeString("f") + "\n"))
+	f, _, err := t.recvFileName(root, nil)
+	verifAssert(err != nil, "a name was reused although none is free")
+	verifAssert(f == nil, "a file was opened although none is free")
+	verifAssert(verifFSMutations() == 0, "the destination was modified")
+	verifAssert(len(sink.data) == 0, "SUCC sent although the name was refused")
+	verifReach("refused")
+}
+
+// non-directory mode through the real NAME exchange; whatever pre-exists, nothing of it is touched
+func zzH_C07_file() {
+	root := verifFSRoot()
+	verifFSSymbolicExists()
+	verifFSBegin()
+	sink := &zzSink7{}
+	t := newTransfer(sink, nil, false, nil)
+	t.transferConfig.Timeout = 0
+	t.transferConfig.Protocol = verifNondetRange(1, 2)
+	t.buffer.addBuffer([]byte("#NAME:" + encodeString("f") + "\n"))
+	f, local, err := t.recvFileName(root, nil)
+	if err != nil {
+		verifAssert(!verifFSPreTouched(), "pre-existing entry modified by a refused receive")
 		verifReach("refused")
 		return
 	}
-	_ = f
-	verifAssert(verifFSEvents() == 1, "exactly one file opened")
-	verifAssert(!verifFSEventPre(0), "an existing entry was opened for writing (truncated)")
-	verifAssert(verifFSEventPath(0) == "/d/"+local, "reported name differs from the name used")
+	verifAssert(f != nil, "no file although success")
+	f.Write([]byte{'n', 'e', 'w'})
+	f.Close()
+	verifAssert(!verifFSPreTouched(), "pre-existing entry modified")
+	echoed, ok := zzSuccName(sink.data)
+	verifAssert(ok, "malformed SUCC reply")
+	verifAssert(echoed == local, "name echoed to the peer differs from the name returned")
+	verifAssert(verifFSKind(root+"/"+local) == 1, "reported name is not the file written")
+	c := verifFSContent(root + "/" + local)
+	verifAssert(len(c) == 3, "reported name does not hold the data written")
 	verifReach("created")
+}
+
+func zzSendName7(t *trzszTransfer, src *sourceFile) {
+	js, err := src.marshalSourceFile()
+	verifAssume(err == nil)
+	t.buffer.addBuffer([]byte("#NAME:" + encodeString(js) + "\n"))
+}
+
+// directory mode: a directory and two entries below it (same path id), then a second top-level path whose base
+// name may equal the first; everything of one path id goes consistently under one fresh name
+func zzH_C07_dir() {
+	root := verifFSRoot()
+	verifFSSymbolicExists()
+	verifFSBegin()
+	sink := &zzSink7{}
+	t := newTransfer(sink, nil, false, nil)
+	t.transferConfig.Timeout = 0
+	t.transferConfig.Directory = true
+	v3 := verifNondetBool()
+	recv := func(src *sourceFile) (fileWriter, string, error) {
+		sink.data = nil
+		zzSendName7(t, src)
+		if v3 {
+			t.transferConfig.Protocol = 3
+			return t.recvFileNameV3(root, nil)
+		}
+		return t.recvFileName(root, nil)
+	}
+	_, l0, err := recv(&sourceFile{PathID: 0, RelPath: []string{"d"}, IsDir: true})
+	if err != nil {
+		verifAssert(!verifFSPreTouched(), "pre-existing entry modified by a refused receive")
+		verifReach("refused")
+		return
+	}
+	f1, l1, err := recv(&sourceFile{PathID: 0, RelPath: []string{"d", "x"}})
+	verifAssert(err == nil, "entry below a directory this transfer created was refused")
+	verifAssert(l1 == l0, "entries of one source path under different local names")
+	if f1 != nil {
+		f1.Write([]byte{'1'})
+		f1.Close()
+	}
+	verifAssert(verifFSKind(root+"/"+l0+"/x") == 1, "entry not stored under the fresh top-level name")
+	_, l2, err := recv(&sourceFile{PathID: 0, RelPath: []string{"d", "s"}, IsDir: true})
+	verifAssert(err == nil, "sub-directory refused")
+	verifAssert(l2 == l0, "entries of one source path under different local names")
+	verifAssert(verifFSKind(root+"/"+l0+"/s") == 2, "sub-directory not created under the fresh top-level name")
+	// a second source path, same base name or another one
+	name2 := "d"
+	if verifNondetBool() {
+		name2 = "e"
+	}
+	f3, l3, err := recv(&sourceFile{PathID: 1, RelPath: []string{name2}})
+	if err == nil {
+		verifAssert(l3 != l0, "second source path stored over the first")
+		if f3 != nil {
+			f3.Write([]byte{'3'})
+			f3.Close()
+		}
+		echoed, ok := zzSuccName(sink.data)
+		if !v3 {
+			verifAssert(ok, "malformed SUCC reply")
+			verifAssert(echoed == l3, "name echoed to the peer differs from the name returned")
+		}
+		verifAssert(verifFSKind(root+"/"+l3) == 1, "reported name is not the file written")
+	}
+	verifAssert(!verifFSPreTouched(), "pre-existing entry modified")
+	verifAssert(verifFSKind(root+"/"+l0+"/x") == 1, "first path's entry disturbed by the second path")
+	verifReach("stored")
 }
